@@ -1,4 +1,206 @@
-import Ahbicht.Model.Val
+import Ahbicht.Lemmas.ValTables
+import Ahbicht.Model.Extract
+/-!
+# C17 — value pools offer exactly the admissible qualifiers and judge input by them
+-/
 namespace Ahbicht.Properties.C17
-theorem placeholder : True := trivial
+open Ahbicht
+
+/-! ## helper lemmas -/
+
+theorem mem_dedupKeys' {α : Type} [DecidableEq α] (l : List α) (x : α) : x ∈ dedupKeys l ↔ x ∈ l := by
+  induction l with
+  | nil => simp [dedupKeys]
+  | cons y ys ih =>
+    simp only [dedupKeys, List.mem_cons, List.mem_filter, ih]
+    by_cases h : x = y <;> simp [h]
+
+/-- the keys of a dict after insertion -/
+def keysInsert (ks : List String) (k : String) : List String := if k ∈ ks then ks else ks ++ [k]
+
+theorem dictInsert_keys (d : List (String × String)) (k v : String) :
+    (dictInsert d k v).map (·.1) = keysInsert (d.map (·.1)) k := by
+  unfold dictInsert keysInsert
+  by_cases h : k ∈ d.map (·.1)
+  · have h' : d.any (·.1 == k) = true := by
+      rw [List.any_eq_true]
+      obtain ⟨a, ha, hk⟩ := List.mem_map.1 h
+      exact ⟨a, ha, by simp [hk]⟩
+    rw [if_pos h', if_pos h, List.map_map]
+    apply List.map_congr_left
+    intro a _
+    by_cases hak : a.1 = k
+    · simp [hak]
+    · simp [hak]
+  · have h' : ¬ (d.any (·.1 == k) = true) := by
+      rw [List.any_eq_true]
+      rintro ⟨a, ha, hk⟩
+      exact h (List.mem_map.2 ⟨a, ha, by simpa using hk⟩)
+    rw [if_neg h', if_neg h]
+    simp
+
+theorem foldl_dictInsert_keys (l : List PoolEntry) (d : List (String × String)) :
+    (l.foldl (fun d e => dictInsert d e.qualifier e.meaning) d).map (·.1)
+      = (l.map (·.qualifier)).foldl keysInsert (d.map (·.1)) := by
+  induction l generalizing d with
+  | nil => rfl
+  | cons e es ih =>
+    simp only [List.foldl_cons, List.map_cons]
+    rw [ih, dictInsert_keys]
+
+theorem foldl_keysInsert (l ks : List String) :
+    l.foldl keysInsert ks = ks ++ (dedupKeys l).filter (fun x => decide (x ∉ ks)) := by
+  induction l generalizing ks with
+  | nil => simp [dedupKeys]
+  | cons x xs ih =>
+    simp only [List.foldl_cons, dedupKeys]
+    by_cases hx : x ∈ ks
+    · have : keysInsert ks x = ks := by simp [keysInsert, hx]
+      rw [this, ih]
+      congr 1
+      rw [List.filter_cons]
+      simp only [hx, not_true_eq_false, decide_false, Bool.false_eq_true, if_false, List.filter_filter]
+      apply List.filter_congr
+      intro a _
+      by_cases hak : a ∈ ks
+      · simp [hak]
+      · have : a ≠ x := by rintro rfl; exact hak hx
+        simp [hak, this]
+    · have : keysInsert ks x = ks ++ [x] := by simp [keysInsert, hx]
+      rw [this, ih]
+      rw [List.filter_cons]
+      simp only [hx, not_false_eq_true, decide_true, if_true, List.filter_filter, List.append_assoc,
+        List.singleton_append]
+      congr 2
+      apply List.filter_congr
+      intro a _
+      by_cases hax : a = x
+      · simp [hax]
+      · by_cases hak : a ∈ ks <;> simp [hax, hak]
+
+theorem offered_general (es : List PoolEntry) (st : RVV) (hst : st ≠ .IS_FORBIDDEN) (hlen : es.length ≠ 1) :
+    offered es st = (es.filter entryOffered).foldl (fun d e => dictInsert d e.qualifier e.meaning) [] := by
+  unfold offered
+  rw [if_neg hst]
+  match es, hlen with
+  | [], _ => rfl
+  | [e], h => exact absurd rfl h
+  | _ :: _ :: _, _ => rfl
+
+theorem any_fst_iff (poss : List (String × String)) (i : String) :
+    poss.any (·.1 == i) = true ↔ i ∈ poss.map (·.1) := by
+  rw [List.any_eq_true, List.mem_map]
+  constructor
+  · rintro ⟨a, ha, h⟩; exact ⟨a, ha, by simpa using h⟩
+  · rintro ⟨a, ha, h⟩; exact ⟨a, ha, by simp [h]⟩
+
+/-! ## the theorems -/
+
+/-- an entry is offered iff its own expression is fulfilled (an invalid expression counts as selectable, see C16) -/
+theorem C17_entry_offered (e : PoolEntry) :
+    entryOffered e = true ↔ (∃ msg, e.res = .invalid msg) ∨ (∃ r, e.res = .ok r ∧ r.fulfilled = some true) := by
+  unfold entryOffered
+  cases h : e.res with
+  | invalid msg => simp
+  | ok r => simp
+
+/-- a single-entry pool always offers its entry -/
+theorem C17_single (e : PoolEntry) (st : RVV) (hst : st ≠ .IS_FORBIDDEN) : offered [e] st = [(e.qualifier, e.meaning)] := by
+  unfold offered
+  rw [if_neg hst]
+
+/-- below a forbidden segment nothing is offered -/
+theorem C17_forbidden_segment (es : List PoolEntry) : offered es .IS_FORBIDDEN = [] := by
+  unfold offered
+  rw [if_pos rfl]
+
+/-- **C17 (offered values).** For a pool that does not consist of exactly one entry, below a segment that is not forbidden, the offered
+qualifiers are exactly the qualifiers of the entries whose own expression is fulfilled, in pool order (a repeated qualifier
+keeps its first position). -/
+theorem C17_offered (es : List PoolEntry) (st : RVV) (hst : st ≠ .IS_FORBIDDEN) (hlen : es.length ≠ 1) :
+    (offered es st).map (·.1) = dedupKeys ((es.filter entryOffered).map (·.qualifier)) := by
+  rw [offered_general es st hst hlen, foldl_dictInsert_keys, foldl_keysInsert]
+  simp
+
+/-- membership form of the same -/
+theorem C17_offered_mem (es : List PoolEntry) (st : RVV) (hst : st ≠ .IS_FORBIDDEN) (hlen : es.length ≠ 1) (q : String) :
+    q ∈ (offered es st).map (·.1) ↔ ∃ e ∈ es, e.qualifier = q ∧ entryOffered e = true := by
+  rw [C17_offered es st hst hlen, mem_dedupKeys', List.mem_map]
+  constructor
+  · rintro ⟨e, he, hq⟩
+    rw [List.mem_filter] at he
+    exact ⟨e, he.1, hq, he.2⟩
+  · rintro ⟨e, he, hq, ho⟩
+    exact ⟨e, List.mem_filter.2 ⟨he, ho⟩, hq⟩
+
+/-- the input is one of the offered qualifiers -/
+def inputOffered (input : Option String) (poss : List (String × String)) : Prop :=
+  ∃ i, input = some i ∧ i ∈ poss.map (·.1)
+
+/-- **C17 (judging the input).** Value-pool validation never fails; it reports the offered values; nothing offered ⇒ forbidden
+(in particular below a forbidden segment); otherwise an entered value is accepted iff it is offered, an unexpected value is flagged
+(format flag false) and reported empty, no input is reported required-and-empty. -/
+theorem C17_result (disc : String) (es : List PoolEntry) (input : Option String) (st : RVV) (soll : Bool) :
+    ∃ o, validateDataElement (.pool disc es input) st soll = .ok o ∧ o.possible = some (offered es st) ∧ o.disc = disc ∧
+      (offered es st = [] → o.status = .IS_FORBIDDEN) ∧
+      (offered es st ≠ [] →
+        (inputOffered input (offered es st) → o.status = .IS_REQUIRED_AND_FILLED ∧ o.fcOk = some true) ∧
+        (¬ inputOffered input (offered es st) → truthyStr input = true → o.status = .IS_REQUIRED_AND_EMPTY ∧ o.fcOk = some false) ∧
+        (¬ inputOffered input (offered es st) → truthyStr input = false → o.status = .IS_REQUIRED_AND_EMPTY ∧ o.fcOk = some true)) := by
+  simp only [validateDataElement]
+  by_cases hE : offered es st = []
+  · rw [if_pos (by simp [hE])]
+    exact ⟨_, rfl, by simp [hE], rfl, fun _ => rfl, fun h => absurd hE h⟩
+  · rw [if_neg (by simpa using hE)]
+    cases input with
+    | none =>
+      have hI : ¬ inputOffered none (offered es st) := by rintro ⟨i, hi, _⟩; cases hi
+      have hT : truthyStr none = false := rfl
+      simp only []
+      rw [if_neg Bool.false_ne_true, if_neg (by rw [hT]; exact Bool.false_ne_true)]
+      exact ⟨_, rfl, rfl, rfl, fun h => absurd h hE,
+        fun _ => ⟨fun h => absurd h hI, fun _ h => (by rw [hT] at h; cases h), fun _ _ => ⟨rfl, rfl⟩⟩⟩
+    | some i =>
+      simp only []
+      by_cases hc : ((offered es st).any fun x => x.fst == i) = true
+      · have hI : inputOffered (some i) (offered es st) := ⟨i, rfl, (any_fst_iff _ _).1 hc⟩
+        rw [if_pos hc]
+        exact ⟨_, rfl, rfl, rfl, fun h => absurd h hE,
+          fun _ => ⟨fun _ => ⟨rfl, rfl⟩, fun h => absurd hI h, fun h => absurd hI h⟩⟩
+      · have hI : ¬ inputOffered (some i) (offered es st) := by
+          rintro ⟨j, hj, hi⟩
+          cases hj
+          exact hc ((any_fst_iff _ _).2 hi)
+        rw [if_neg hc]
+        by_cases hT : truthyStr (some i) = true
+        · rw [if_pos hT]
+          exact ⟨_, rfl, rfl, rfl, fun h => absurd h hE,
+            fun _ => ⟨fun h => absurd h hI, fun _ _ => ⟨rfl, rfl⟩, fun _ h => by rw [hT] at h; cases h⟩⟩
+        · rw [if_neg hT]
+          exact ⟨_, rfl, rfl, rfl, fun h => absurd h hE,
+            fun _ => ⟨fun h => absurd h hI, fun _ h => absurd h hT, fun _ _ => ⟨rfl, rfl⟩⟩⟩
+
+/-- accepted iff offered -/
+theorem C17_accept_iff (disc : String) (es : List PoolEntry) (input : Option String) (st : RVV) (soll : Bool) (o : Out)
+    (h : validateDataElement (.pool disc es input) st soll = .ok o) :
+    o.status = .IS_REQUIRED_AND_FILLED ↔ inputOffered input (offered es st) := by
+  obtain ⟨o', ho', _, _, hF, hN⟩ := C17_result disc es input st soll
+  rw [h] at ho'
+  cases ho'
+  by_cases hE : offered es st = []
+  · have h1 := hF hE
+    constructor
+    · intro h2; rw [h1] at h2; cases h2
+    · rintro ⟨i, _, hi⟩; rw [hE] at hi; cases hi
+  · obtain ⟨hA, hB, hC⟩ := hN hE
+    constructor
+    · intro h2
+      apply Classical.byContradiction
+      intro hI
+      cases hT : truthyStr input with
+      | true => rw [(hB hI hT).1] at h2; cases h2
+      | false => rw [(hC hI hT).1] at h2; cases h2
+    · intro hI; exact (hA hI).1
+
 end Ahbicht.Properties.C17
+
